@@ -81,7 +81,7 @@ class ClaimsInterface:
             _claims_by_scope = module.kwargs.get("add_claims_by_scope", {})
 
         add_claims_always = _cdb[client_id].get("add_claims", {}).get("always", {})
-        _always_add = add_claims_always.get(claims_release_point, [])
+        _always_add = list(add_claims_always.get(claims_release_point, []))
         if secondary_identifier:
             _always_2 = add_claims_always.get(secondary_identifier, [])
             _always_add.extend(_always_2)
